@@ -298,7 +298,17 @@ def optrig_n04(st, op):
                for e in op[1][1])
 
 
-OPTRIG = {"N-03": ("dense", optrig_n03), "N-04": ("sparse", optrig_n04), "A-13": ("sparse", optrig_a13), "N-01": ("sparse", optrig_n01), "N-02": ("sparse", optrig_n02),
+def optrig_n05(st, op):
+    """sparse region assignment of a tensor that adds modes while the tensor holds nonzeros"""
+    return bool(_is_set(op, ("region",)) and op[2][0] == "values" and len(op[1][1]) > len(st[0]) and st[1])
+
+
+def optrig_n06(st, op):
+    """sparse region assignment of a tensor with a negative integer subscript"""
+    return bool(_is_set(op, ("region",)) and op[2][0] == "values" and any(e[0] == "i" and e[1] < 0 for e in op[1][1]))
+
+
+OPTRIG = {"C04-N05": ("sparse", optrig_n05), "C04-N06": ("sparse", optrig_n06), "C04-N03": ("dense", optrig_n03), "C04-N04": ("sparse", optrig_n04), "A-13": ("sparse", optrig_a13), "C04-N01": ("sparse", optrig_n01), "C04-N02": ("sparse", optrig_n02),
           "A-14": ("sparse", optrig_a14), "A-15": ("dense", optrig_a15), "A-16": ("dense", optrig_a16),
           "A-17": ("dense", optrig_a17)}
 
